@@ -275,7 +275,10 @@ class FnView:
         if k == "un":
             if n["op"] == "*":
                 return T(n["e"])
-            return ("un", n["op"], T(n["e"]))
+            inner = T(n["e"])
+            if n["op"] == "!" and inner == ("lit", 0) and n.get("ty") in ("u8", "u16", "u32", "u64", "u128", "usize"):
+                return ("const", "core::num::MAX")       # !0 is the all-ones value of the type: T::MAX
+            return ("un", n["op"], inner)
         if k == "cast":
             ty = n.get("ty", "")
             src = n["e"].get("ty", "")
@@ -295,7 +298,14 @@ class FnView:
         if k == "bin":
             if n["op"] == "+" and n.get("ty", "").endswith("string::String"):
                 return ("concat", T(n["l"]), T(n["r"]))
-            return mk_bin(n["op"], T(n["l"]), T(n["r"]))
+            lt_, rt_ = T(n["l"]), T(n["r"])
+            if n["op"] in ("%", "/") and n.get("ty") in ("u8", "u16", "u32", "u64", "u128", "usize") \
+                    and rt_[0] == "lit" and isinstance(rt_[1], int) and rt_[1] > 0 and rt_[1] & (rt_[1] - 1) == 0:
+                # unsigned x % 2^k == x & (2^k - 1), x / 2^k == x >> k
+                if n["op"] == "%":
+                    return mk_bin("&", lt_, ("lit", rt_[1] - 1))
+                return mk_bin(">>", lt_, ("lit", rt_[1].bit_length() - 1))
+            return mk_bin(n["op"], lt_, rt_)
         if k == "tup":
             return ("tup",) + tuple(T(x) for x in n.get("es", []))
         if k == "array":
@@ -313,6 +323,8 @@ class FnView:
             args = [T(a) for a in call_args(n)]
             if name in TRANSPARENT and len(args) >= 1:
                 return args[0]
+            if name.endswith("::max_value") and name.startswith("core::num::") and not args:
+                return ("const", "core::num::MAX")
             if name in MIN_FNS or name in FMIN_FNS:
                 return mk_bin("min", args[0], args[1])
             if name in MAX_FNS or name in FMAX_FNS:
@@ -482,14 +494,35 @@ class FnView:
                         break
                 if idx is not None and with_asserts:
                     for s in seq[:idx]:
-                        x = s["e"] if s.get("k") == "semi" else s
-                        if x.get("k") == "if" and x.get("else") is None and diverges(x["then"]):
-                            out.append((x["cond"], False))
+                        out.extend(after_facts(s))
             elif k == "closure":
                 # guards outside the closure still hold lexically but not temporally; stop here
                 pass
             cur = a
         return out
+
+
+def after_facts(x):
+    """[(cond, polarity)] known once statement x has completed normally: `if c { diverge }` leaves !c behind, also when
+    the other branch is itself such a statement (`if a { return } else if b { return } else {}`)."""
+    if x is None:
+        return []
+    k = x.get("k")
+    if k == "semi":
+        return after_facts(x["e"])
+    if k == "block":
+        out = []
+        for s in x.get("stmts", []):
+            out.extend(after_facts(s))
+        if x.get("expr") is not None:
+            out.extend(after_facts(x["expr"]))
+        return out
+    if k == "if" and x["cond"].get("k") != "letexpr":
+        if diverges(x["then"]):
+            return [(x["cond"], False)] + after_facts(x.get("else"))
+        if x.get("else") is not None and diverges(x["else"]):
+            return [(x["cond"], True)] + after_facts(x["then"])
+    return []
 
 
 def diverges(n):
